@@ -40,6 +40,7 @@ import (
 	"github.com/uber/kraken/lib/torrent/storage/originstorage"
 	"github.com/uber/kraken/lib/torrent/storage/piecereader"
 	"github.com/uber/kraken/tracker/metainfoclient"
+	"github.com/willf/bitset"
 	"go.uber.org/zap"
 )
 
@@ -305,8 +306,8 @@ func (t *tap) snapshot() ([]sendRec, bool) {
 	return append([]sendRec{}, t.sends...), t.closed
 }
 
-func bitsetOf(n int, word uint64) *bitsetT {
-	b := newBitset(uint(n))
+func bitsetOf(n int, word uint64) *bitset.BitSet {
+	b := bitset.New(uint(n))
 	for i := 0; i < n; i++ {
 		if word&(1<<uint(i)) != 0 {
 			b.Set(uint(i))
